@@ -1,7 +1,1009 @@
-//! C15 operations (op names start with `c15.`)
-#[allow(unused_imports)]
+//! C15 — all routes to the same operation give bit-identical results (op names start with `c15.`)
+//!
+//! One op line = one route FAMILY: every route (inherent method, trait method, operator by value /
+//! by reference / assigning, `Wrapping` / `Checked`, constant-time and `_vartime` variant, `BoxedUint`
+//! at the same precision, precomputed vs one-shot, `const` item vs run time) is executed on the same
+//! input and printed, `r1 | r2 | …`.  Fixed results print as hex, boxed results as `<nlimbs>:<hex>`
+//! (the precision of the result is part of the output).  A panic inside one route is that route's
+//! result `panic`.  The model prints the same tuple (see lean/CB/Driver/C15.lean; route order there
+//! follows the order here).
+//!
+//! `c15.<family> n args…`        fixed `Uint<n>` next to `BoxedUint` of `n` limbs
+//! `c15.bm.<family> na a nb b`   boxed operands of two different precisions (documented result precision)
+//! `c15.l.<family> …`            `Limb`
+//! `c15.const.<family> k args…`  entry `k` of the compile-time table vs the same call at run time
 use crate::util::*;
+use core::cmp::Ordering;
+use crypto_bigint::subtle::{
+    Choice, ConditionallyNegatable, ConditionallySelectable, ConstantTimeEq, ConstantTimeGreater, ConstantTimeLess,
+    CtOption,
+};
+use crypto_bigint::{
+    AddMod, BitOps, BoxedUint, Checked, CheckedAdd, CheckedDiv, CheckedMul, CheckedSub, ConstChoice, ConstCtOption,
+    ConstantTimeSelect, DivRemLimb, DivVartime, Integer, Limb, MulMod, NegMod, NonZero, Reciprocal, RemLimb,
+    ShlVartime, ShrVartime, SquareRoot, SubMod, U64, U128, U256, Uint, WideningMul, Wrapping, WrappingAdd, WrappingMul,
+    WrappingNeg, WrappingShl, WrappingShr, WrappingSub, Zero,
+};
+use std::panic::{AssertUnwindSafe, catch_unwind};
 
-pub fn dispatch(_op: &str, _a: &[&str]) -> Option<String> {
-    None
+/// evaluate one route; a panic inside it is the result `panic`
+fn form<F: FnOnce() -> String>(f: F) -> String {
+    catch_unwind(AssertUnwindSafe(f)).unwrap_or_else(|_| "panic".to_string())
+}
+
+macro_rules! routes {
+    ($($e:expr),+ $(,)?) => { vec![$(form(|| $e)),+].join(" | ") };
+}
+
+fn ord(o: Ordering) -> String {
+    match o {
+        Ordering::Less => "lt".into(),
+        Ordering::Equal => "eq".into(),
+        Ordering::Greater => "gt".into(),
+    }
+}
+fn optu<const N: usize>(o: CtOption<Uint<N>>) -> String {
+    Option::<Uint<N>>::from(o).map(|v| uhex(&v)).unwrap_or("none".into())
+}
+fn optb(o: CtOption<BoxedUint>) -> String {
+    Option::<BoxedUint>::from(o).map(|v| bhexlen(&v)).unwrap_or("none".into())
+}
+fn co<const N: usize>(o: ConstCtOption<Uint<N>>) -> String {
+    Option::<Uint<N>>::from(o).map(|v| uhex(&v)).unwrap_or("none".into())
+}
+fn optl(o: CtOption<Limb>) -> String {
+    Option::<Limb>::from(o).map(lhex).unwrap_or("none".into())
+}
+fn ovf(r: (BoxedUint, Choice)) -> String {
+    if bool::from(r.1) { "none".into() } else { bhexlen(&r.0) }
+}
+fn nzu<const N: usize>(d: Uint<N>) -> Option<NonZero<Uint<N>>> {
+    NonZero::new(d).into()
+}
+fn nzb(d: &BoxedUint) -> Option<NonZero<BoxedUint>> {
+    NonZero::new(d.clone()).into()
+}
+fn nzl(d: Limb) -> Option<NonZero<Limb>> {
+    NonZero::new(d).into()
+}
+
+// ------------------------------------------------------------------------------------------------
+// fixed Uint<N> next to BoxedUint of N limbs
+// ------------------------------------------------------------------------------------------------
+
+fn fx<const N: usize>(op: &str, a: &[&str]) -> Option<String> {
+    let u = |v: &Uint<N>| uhex(v);
+    let b = |v: &BoxedUint| bhexlen(v);
+    let bits = Uint::<N>::BITS;
+    // operands: up to three values; every family parses what it needs
+    let ux = |i: usize| a.get(i).and_then(|s| uint::<N>(s));
+    let bxv = |i: usize| a.get(i).and_then(|s| boxed(s, N));
+    Some(match (op, a.len()) {
+        // ---------------------------------------------------------------- C04: add / sub / neg
+        ("c15.add", 2) => {
+            let (x, y, bx, by) = (arg!(ux(0)), arg!(ux(1)), arg!(bxv(0)), arg!(bxv(1)));
+            routes![
+                u(&x.wrapping_add(&y)),
+                u(&WrappingAdd::wrapping_add(&x, &y)),
+                u(&(Wrapping(x) + Wrapping(y)).0),
+                u(&(Wrapping(x) + &Wrapping(y)).0),
+                u(&(&Wrapping(x) + Wrapping(y)).0),
+                u(&(&Wrapping(x) + &Wrapping(y)).0),
+                { let mut w = Wrapping(x); w += Wrapping(y); u(&w.0) },
+                { let mut w = Wrapping(x); w += &Wrapping(y); u(&w.0) },
+                u(&x.adc(&y, Limb::ZERO).0),
+                b(&bx.wrapping_add(&by)),
+                b(&WrappingAdd::wrapping_add(&bx, &by)),
+                b(&(Wrapping(bx.clone()) + Wrapping(by.clone())).0),
+                b(&(&Wrapping(bx.clone()) + &Wrapping(by.clone())).0),
+                { let mut w = Wrapping(bx.clone()); w += Wrapping(by.clone()); b(&w.0) },
+                { let mut w = Wrapping(bx.clone()); w += &Wrapping(by.clone()); b(&w.0) },
+                b(&bx.adc(&by, Limb::ZERO).0),
+                { let mut t = bx.clone(); t.adc_assign(&by, Limb::ZERO); b(&t) },
+            ]
+        }
+        ("c15.sub", 2) => {
+            let (x, y, bx, by) = (arg!(ux(0)), arg!(ux(1)), arg!(bxv(0)), arg!(bxv(1)));
+            routes![
+                u(&x.wrapping_sub(&y)),
+                u(&WrappingSub::wrapping_sub(&x, &y)),
+                u(&(Wrapping(x) - Wrapping(y)).0),
+                u(&(Wrapping(x) - &Wrapping(y)).0),
+                u(&(&Wrapping(x) - Wrapping(y)).0),
+                u(&(&Wrapping(x) - &Wrapping(y)).0),
+                { let mut w = Wrapping(x); w -= Wrapping(y); u(&w.0) },
+                { let mut w = Wrapping(x); w -= &Wrapping(y); u(&w.0) },
+                u(&x.sbb(&y, Limb::ZERO).0),
+                b(&bx.wrapping_sub(&by)),
+                b(&WrappingSub::wrapping_sub(&bx, &by)),
+                b(&(Wrapping(bx.clone()) - Wrapping(by.clone())).0),
+                b(&(&Wrapping(bx.clone()) - &Wrapping(by.clone())).0),
+                { let mut w = Wrapping(bx.clone()); w -= Wrapping(by.clone()); b(&w.0) },
+                { let mut w = Wrapping(bx.clone()); w -= &Wrapping(by.clone()); b(&w.0) },
+                b(&bx.sbb(&by, Limb::ZERO).0),
+                { let mut t = bx.clone(); t.sbb_assign(&by, Limb::ZERO); b(&t) },
+            ]
+        }
+        // checked forms print `none`, panicking operator forms print `panic`
+        ("c15.cadd", 2) => {
+            let (x, y, bx, by) = (arg!(ux(0)), arg!(ux(1)), arg!(bxv(0)), arg!(bxv(1)));
+            let (cx, cy) = (Checked::new(x), Checked::new(y));
+            routes![
+                optu(CheckedAdd::checked_add(&x, &y)),
+                optu((cx + cy).0),
+                optu((cx + &cy).0),
+                optu((&cx + cy).0),
+                optu((&cx + &cy).0),
+                { let mut w = cx; w += cy; optu(w.0) },
+                { let mut w = cx; w += &cy; optu(w.0) },
+                u(&(x + y)),
+                u(&(x + &y)),
+                { let mut t = x; t += y; u(&t) },
+                { let mut t = x; t += &y; u(&t) },
+                optb(CheckedAdd::checked_add(&bx, &by)),
+                b(&(&bx + &by)),
+                b(&(bx.clone() + by.clone())),
+                b(&(bx.clone() + &by)),
+                b(&(&bx + by.clone())),
+                { let mut t = bx.clone(); t += &by; b(&t) },
+                { let mut t = bx.clone(); t += by.clone(); b(&t) },
+                b(&(&bx + y)),
+                b(&(&bx + &y)),
+                b(&(bx.clone() + y)),
+                b(&(bx.clone() + &y)),
+                { let mut t = bx.clone(); t += y; b(&t) },
+                { let mut t = bx.clone(); t += &y; b(&t) },
+            ]
+        }
+        ("c15.csub", 2) => {
+            let (x, y, bx, by) = (arg!(ux(0)), arg!(ux(1)), arg!(bxv(0)), arg!(bxv(1)));
+            let (cx, cy) = (Checked::new(x), Checked::new(y));
+            routes![
+                optu(CheckedSub::checked_sub(&x, &y)),
+                optu((cx - cy).0),
+                optu((cx - &cy).0),
+                optu((&cx - cy).0),
+                optu((&cx - &cy).0),
+                { let mut w = cx; w -= cy; optu(w.0) },
+                { let mut w = cx; w -= &cy; optu(w.0) },
+                u(&(x - y)),
+                u(&(x - &y)),
+                { let mut t = x; t -= y; u(&t) },
+                { let mut t = x; t -= &y; u(&t) },
+                optb(CheckedSub::checked_sub(&bx, &by)),
+                b(&(&bx - &by)),
+                b(&(bx.clone() - by.clone())),
+                b(&(bx.clone() - &by)),
+                b(&(&bx - by.clone())),
+                { let mut t = bx.clone(); t -= &by; b(&t) },
+                { let mut t = bx.clone(); t -= by.clone(); b(&t) },
+                b(&(&bx - y)),
+                b(&(&bx - &y)),
+                b(&(bx.clone() - y)),
+                b(&(bx.clone() - &y)),
+                { let mut t = bx.clone(); t -= y; b(&t) },
+                { let mut t = bx.clone(); t -= &y; b(&t) },
+            ]
+        }
+        ("c15.neg", 1) => {
+            let (x, bx) = (arg!(ux(0)), arg!(bxv(0)));
+            routes![
+                u(&x.wrapping_neg()),
+                u(&WrappingNeg::wrapping_neg(&x)),
+                u(&(-Wrapping(x)).0),
+                u(&(-&Wrapping(x)).0),
+                u(&x.carrying_neg().0),
+                u(&x.wrapping_neg_if(ConstChoice::TRUE)),
+                u(&Uint::<N>::ZERO.wrapping_sub(&x)),
+                b(&bx.wrapping_neg()),
+                b(&WrappingNeg::wrapping_neg(&bx)),
+                b(&(-Wrapping(bx.clone())).0),
+                { let mut t = bx.clone(); t.conditional_negate(Choice::from(1)); b(&t) },
+                b(&BoxedUint::zero_with_precision(bits).wrapping_sub(&bx)),
+            ]
+        }
+        // ---------------------------------------------------------------- C05: shifts
+        ("c15.shl", 2) => {
+            let (x, bx, s) = (arg!(ux(0)), arg!(bxv(0)), arg!(dec32(a[1])));
+            routes![
+                u(&x.shl(s)),
+                u(&x.shl_vartime(s)),
+                u(&(x << s)),
+                u(&(&x << s)),
+                { let mut y = x; y <<= s; u(&y) },
+                u(&(x << (s as i32))),
+                u(&(&x << (s as usize))),
+                { let mut y = x; y <<= s as usize; u(&y) },
+                b(&bx.shl(s)),
+                b(&(bx.clone() << s)),
+                b(&(&bx << s)),
+                { let mut y = bx.clone(); y <<= s; b(&y) },
+                b(&(bx.clone() << (s as i32))),
+                b(&(&bx << (s as usize))),
+                { let mut y = bx.clone(); y.shl_assign(s); b(&y) },
+            ]
+        }
+        ("c15.shr", 2) => {
+            let (x, bx, s) = (arg!(ux(0)), arg!(bxv(0)), arg!(dec32(a[1])));
+            routes![
+                u(&x.shr(s)),
+                u(&x.shr_vartime(s)),
+                u(&(x >> s)),
+                u(&(&x >> s)),
+                { let mut y = x; y >>= s; u(&y) },
+                u(&(x >> (s as i32))),
+                u(&(&x >> (s as usize))),
+                { let mut y = x; y >>= s as usize; u(&y) },
+                b(&bx.shr(s)),
+                b(&(bx.clone() >> s)),
+                b(&(&bx >> s)),
+                { let mut y = bx.clone(); y >>= s; b(&y) },
+                b(&(bx.clone() >> (s as i32))),
+                b(&(&bx >> (s as usize))),
+                { let mut y = bx.clone(); y.shr_assign(s); b(&y) },
+            ]
+        }
+        ("c15.oshl", 2) => {
+            let (x, bx, s) = (arg!(ux(0)), arg!(bxv(0)), arg!(dec32(a[1])));
+            routes![
+                co(x.overflowing_shl(s)),
+                co(x.overflowing_shl_vartime(s)),
+                optu(ShlVartime::overflowing_shl_vartime(&x, s)),
+                ovf(bx.overflowing_shl(s)),
+                bx.shl_vartime(s).map(|v| b(&v)).unwrap_or("none".into()),
+                optb(ShlVartime::overflowing_shl_vartime(&bx, s)),
+            ]
+        }
+        ("c15.oshr", 2) => {
+            let (x, bx, s) = (arg!(ux(0)), arg!(bxv(0)), arg!(dec32(a[1])));
+            routes![
+                co(x.overflowing_shr(s)),
+                co(x.overflowing_shr_vartime(s)),
+                optu(ShrVartime::overflowing_shr_vartime(&x, s)),
+                ovf(bx.overflowing_shr(s)),
+                bx.shr_vartime(s).map(|v| b(&v)).unwrap_or("none".into()),
+                optb(ShrVartime::overflowing_shr_vartime(&bx, s)),
+            ]
+        }
+        ("c15.wshl", 2) => {
+            let (x, bx, s) = (arg!(ux(0)), arg!(bxv(0)), arg!(dec32(a[1])));
+            routes![
+                u(&x.wrapping_shl(s)),
+                u(&x.wrapping_shl_vartime(s)),
+                u(&WrappingShl::wrapping_shl(&x, s)),
+                u(&ShlVartime::wrapping_shl_vartime(&x, s)),
+                u(&(Wrapping(x) << s).0),
+                u(&(&Wrapping(x) << s).0),
+                b(&bx.wrapping_shl(s)),
+                b(&bx.wrapping_shl_vartime(s)),
+                b(&WrappingShl::wrapping_shl(&bx, s)),
+                b(&ShlVartime::wrapping_shl_vartime(&bx, s)),
+                b(&(Wrapping(bx.clone()) << s).0),
+                b(&(&Wrapping(bx.clone()) << s).0),
+            ]
+        }
+        ("c15.wshr", 2) => {
+            let (x, bx, s) = (arg!(ux(0)), arg!(bxv(0)), arg!(dec32(a[1])));
+            routes![
+                u(&x.wrapping_shr(s)),
+                u(&x.wrapping_shr_vartime(s)),
+                u(&WrappingShr::wrapping_shr(&x, s)),
+                u(&ShrVartime::wrapping_shr_vartime(&x, s)),
+                u(&(Wrapping(x) >> s).0),
+                u(&(&Wrapping(x) >> s).0),
+                b(&bx.wrapping_shr(s)),
+                b(&bx.wrapping_shr_vartime(s)),
+                b(&WrappingShr::wrapping_shr(&bx, s)),
+                b(&ShrVartime::wrapping_shr_vartime(&bx, s)),
+                b(&(Wrapping(bx.clone()) >> s).0),
+                b(&(&Wrapping(bx.clone()) >> s).0),
+            ]
+        }
+        // ---------------------------------------------------------------- C05: bit queries
+        ("c15.bits", 1) => {
+            let (x, bx) = (arg!(ux(0)), arg!(bxv(0)));
+            routes![
+                x.bits().to_string(),
+                x.bits_vartime().to_string(),
+                BitOps::bits(&x).to_string(),
+                BitOps::bits_vartime(&x).to_string(),
+                bx.bits().to_string(),
+                bx.bits_vartime().to_string(),
+                BitOps::bits(&bx).to_string(),
+                BitOps::bits_vartime(&bx).to_string(),
+            ]
+        }
+        ("c15.lz", 1) => {
+            let (x, bx) = (arg!(ux(0)), arg!(bxv(0)));
+            routes![
+                x.leading_zeros().to_string(),
+                x.leading_zeros_vartime().to_string(),
+                BitOps::leading_zeros(&x).to_string(),
+                BitOps::leading_zeros_vartime(&x).to_string(),
+                bx.leading_zeros().to_string(),
+                BitOps::leading_zeros(&bx).to_string(),
+                BitOps::leading_zeros_vartime(&bx).to_string(),
+            ]
+        }
+        ("c15.tz", 1) => {
+            let (x, bx) = (arg!(ux(0)), arg!(bxv(0)));
+            routes![
+                x.trailing_zeros().to_string(),
+                x.trailing_zeros_vartime().to_string(),
+                BitOps::trailing_zeros(&x).to_string(),
+                BitOps::trailing_zeros_vartime(&x).to_string(),
+                bx.trailing_zeros().to_string(),
+                bx.trailing_zeros_vartime().to_string(),
+                BitOps::trailing_zeros(&bx).to_string(),
+                BitOps::trailing_zeros_vartime(&bx).to_string(),
+            ]
+        }
+        ("c15.to", 1) => {
+            let (x, bx) = (arg!(ux(0)), arg!(bxv(0)));
+            routes![
+                x.trailing_ones().to_string(),
+                x.trailing_ones_vartime().to_string(),
+                BitOps::trailing_ones(&x).to_string(),
+                BitOps::trailing_ones_vartime(&x).to_string(),
+                bx.trailing_ones().to_string(),
+                bx.trailing_ones_vartime().to_string(),
+                BitOps::trailing_ones(&bx).to_string(),
+                BitOps::trailing_ones_vartime(&bx).to_string(),
+            ]
+        }
+        ("c15.bit", 2) => {
+            let (x, bx, i) = (arg!(ux(0)), arg!(bxv(0)), arg!(dec32(a[1])));
+            routes![
+                cchoice(x.bit(i)),
+                bit(x.bit_vartime(i)),
+                choice(BitOps::bit(&x, i)),
+                bit(BitOps::bit_vartime(&x, i)),
+                choice(bx.bit(i)),
+                bit(bx.bit_vartime(i)),
+                choice(BitOps::bit(&bx, i)),
+                bit(BitOps::bit_vartime(&bx, i)),
+            ]
+        }
+        ("c15.set_bit", 3) => {
+            let (x, bx, i, v) = (arg!(ux(0)), arg!(bxv(0)), arg!(dec32(a[1])), arg!(tochoice(a[2])));
+            let vb = bool::from(v);
+            routes![
+                { let mut y = x; BitOps::set_bit(&mut y, i, v); u(&y) },
+                { let mut y = x; BitOps::set_bit_vartime(&mut y, i, vb); u(&y) },
+                { let mut y = bx.clone(); BitOps::set_bit(&mut y, i, v); b(&y) },
+                { let mut y = bx.clone(); BitOps::set_bit_vartime(&mut y, i, vb); b(&y) },
+            ]
+        }
+        // ---------------------------------------------------------------- C05: bitwise operators
+        ("c15.and", 2) => {
+            let (x, y, bx, by) = (arg!(ux(0)), arg!(ux(1)), arg!(bxv(0)), arg!(bxv(1)));
+            routes![
+                u(&x.bitand(&y)), u(&(x & y)), u(&(x & &y)), u(&(&x & y)), u(&(&x & &y)),
+                { let mut t = x; t &= y; u(&t) }, { let mut t = x; t &= &y; u(&t) },
+                u(&x.wrapping_and(&y)), optu(x.checked_and(&y)),
+                u(&(Wrapping(x) & Wrapping(y)).0), u(&(&Wrapping(x) & &Wrapping(y)).0),
+                { let mut t = Wrapping(x); t &= Wrapping(y); u(&t.0) },
+                b(&bx.bitand(&by)), b(&(bx.clone() & by.clone())), b(&(bx.clone() & &by)), b(&(&bx & by.clone())), b(&(&bx & &by)),
+                { let mut t = bx.clone(); t &= by.clone(); b(&t) }, { let mut t = bx.clone(); t &= &by; b(&t) },
+                b(&bx.wrapping_and(&by)), optb(bx.checked_and(&by)),
+                b(&(Wrapping(bx.clone()) & Wrapping(by.clone())).0),
+            ]
+        }
+        ("c15.or", 2) => {
+            let (x, y, bx, by) = (arg!(ux(0)), arg!(ux(1)), arg!(bxv(0)), arg!(bxv(1)));
+            routes![
+                u(&x.bitor(&y)), u(&(x | y)), u(&(x | &y)), u(&(&x | y)), u(&(&x | &y)),
+                { let mut t = x; t |= y; u(&t) }, { let mut t = x; t |= &y; u(&t) },
+                u(&x.wrapping_or(&y)), optu(x.checked_or(&y)),
+                u(&(Wrapping(x) | Wrapping(y)).0), u(&(&Wrapping(x) | &Wrapping(y)).0),
+                { let mut t = Wrapping(x); t |= Wrapping(y); u(&t.0) },
+                b(&bx.bitor(&by)), b(&(bx.clone() | by.clone())), b(&(bx.clone() | &by)), b(&(&bx | by.clone())), b(&(&bx | &by)),
+                { let mut t = bx.clone(); t |= by.clone(); b(&t) }, { let mut t = bx.clone(); t |= &by; b(&t) },
+                b(&bx.wrapping_or(&by)), optb(bx.checked_or(&by)),
+                b(&(Wrapping(bx.clone()) | Wrapping(by.clone())).0),
+            ]
+        }
+        ("c15.xor", 2) => {
+            let (x, y, bx, by) = (arg!(ux(0)), arg!(ux(1)), arg!(bxv(0)), arg!(bxv(1)));
+            routes![
+                u(&x.bitxor(&y)), u(&(x ^ y)), u(&(x ^ &y)), u(&(&x ^ y)), u(&(&x ^ &y)),
+                { let mut t = x; t ^= y; u(&t) }, { let mut t = x; t ^= &y; u(&t) },
+                u(&x.wrapping_xor(&y)), optu(x.checked_xor(&y)),
+                u(&(Wrapping(x) ^ Wrapping(y)).0), u(&(&Wrapping(x) ^ &Wrapping(y)).0),
+                { let mut t = Wrapping(x); t ^= Wrapping(y); u(&t.0) },
+                b(&bx.bitxor(&by)), b(&(bx.clone() ^ by.clone())), b(&(bx.clone() ^ &by)), b(&(&bx ^ by.clone())), b(&(&bx ^ &by)),
+                { let mut t = bx.clone(); t ^= by.clone(); b(&t) }, { let mut t = bx.clone(); t ^= &by; b(&t) },
+                b(&bx.wrapping_xor(&by)), optb(bx.checked_xor(&by)),
+                b(&(Wrapping(bx.clone()) ^ Wrapping(by.clone())).0),
+            ]
+        }
+        ("c15.not", 1) => {
+            let (x, bx) = (arg!(ux(0)), arg!(bxv(0)));
+            routes![
+                u(&x.not()), u(&!x), u(&(!Wrapping(x)).0), u(&x.bitxor(&Uint::<N>::MAX)),
+                b(&bx.not()), b(&!bx.clone()), b(&(!Wrapping(bx.clone())).0),
+            ]
+        }
+        // ---------------------------------------------------------------- C06: comparison / selection
+        ("c15.cmp", 2) => {
+            let (x, y, bx, by) = (arg!(ux(0)), arg!(ux(1)), arg!(bxv(0)), arg!(bxv(1)));
+            let from_ct = |lt: Choice, gt: Choice| -> String {
+                if bool::from(lt) { "lt".into() } else if bool::from(gt) { "gt".into() } else { "eq".into() }
+            };
+            routes![
+                ord(x.cmp(&y)),
+                ord(x.partial_cmp(&y).unwrap()),
+                ord(x.cmp_vartime(&y)),
+                ord(y.cmp(&x).reverse()),
+                from_ct(x.ct_lt(&y), x.ct_gt(&y)),
+                ord(bx.cmp(&by)),
+                ord(bx.partial_cmp(&by).unwrap()),
+                ord(bx.cmp_vartime(&by)),
+                from_ct(bx.ct_lt(&by), bx.ct_gt(&by)),
+            ]
+        }
+        ("c15.eq", 2) => {
+            let (x, y, bx, by) = (arg!(ux(0)), arg!(ux(1)), arg!(bxv(0)), arg!(bxv(1)));
+            routes![
+                choice(x.ct_eq(&y)), bit(x == y), bit(!(x != y)), choice(!x.ct_ne(&y)), bit(x.cmp_vartime(&y) == Ordering::Equal),
+                choice(bx.ct_eq(&by)), bit(bx == by), choice(!bx.ct_ne(&by)),
+            ]
+        }
+        ("c15.lt", 2) => {
+            let (x, y, bx, by) = (arg!(ux(0)), arg!(ux(1)), arg!(bxv(0)), arg!(bxv(1)));
+            routes![
+                choice(x.ct_lt(&y)), bit(x < y), choice(y.ct_gt(&x)), bit(y > x), bit(x.cmp_vartime(&y) == Ordering::Less),
+                choice(bx.ct_lt(&by)), bit(bx < by), choice(by.ct_gt(&bx)), bit(by > bx),
+            ]
+        }
+        ("c15.is_zero", 1) => {
+            let (x, bx) = (arg!(ux(0)), arg!(bxv(0)));
+            routes![
+                choice(Zero::is_zero(&x)), bit(x == Uint::<N>::ZERO), choice(x.ct_eq(&Uint::<N>::ZERO)),
+                bit(x.bits_vartime() == 0),
+                choice(Zero::is_zero(&bx)), bit(bx == BoxedUint::zero()), bit(bx.bits_vartime() == 0),
+            ]
+        }
+        ("c15.is_odd", 1) => {
+            let (x, bx) = (arg!(ux(0)), arg!(bxv(0)));
+            routes![
+                choice(x.is_odd()), choice(Integer::is_odd(&x)), choice(!Integer::is_even(&x)), bit(x.bit_vartime(0)),
+                choice(bx.is_odd()), choice(Integer::is_odd(&bx)), choice(!Integer::is_even(&bx)), bit(bx.bit_vartime(0)),
+            ]
+        }
+        ("c15.select", 3) => {
+            let (x, y, bx, by, c) = (arg!(ux(0)), arg!(ux(1)), arg!(bxv(0)), arg!(bxv(1)), arg!(tochoice(a[2])));
+            routes![
+                u(&Uint::conditional_select(&x, &y, c)),
+                u(&Uint::ct_select(&x, &y, c)),
+                { let mut t = x; t.conditional_assign(&y, c); u(&t) },
+                { let mut t = x; t.ct_assign(&y, c); u(&t) },
+                { let (mut p, mut q) = (x, y); Uint::conditional_swap(&mut p, &mut q, c); u(&p) },
+                { let (mut p, mut q) = (y, x); Uint::ct_swap(&mut p, &mut q, c); u(&q) },
+                b(&BoxedUint::ct_select(&bx, &by, c)),
+                { let mut t = bx.clone(); t.ct_assign(&by, c); b(&t) },
+                { let (mut p, mut q) = (bx.clone(), by.clone()); BoxedUint::ct_swap(&mut p, &mut q, c); b(&p) },
+            ]
+        }
+        // ---------------------------------------------------------------- C03: multiplication / squaring
+        ("c15.wmul", 2) => {
+            let (x, y, bx, by) = (arg!(ux(0)), arg!(ux(1)), arg!(bxv(0)), arg!(bxv(1)));
+            routes![
+                u(&x.wrapping_mul(&y)),
+                u(&WrappingMul::wrapping_mul(&x, &y)),
+                u(&(Wrapping(x) * Wrapping(y)).0),
+                u(&(Wrapping(x) * &Wrapping(y)).0),
+                u(&(&Wrapping(x) * Wrapping(y)).0),
+                u(&(&Wrapping(x) * &Wrapping(y)).0),
+                { let mut w = Wrapping(x); w *= Wrapping(y); u(&w.0) },
+                { let mut w = Wrapping(x); w *= &Wrapping(y); u(&w.0) },
+                u(&x.split_mul(&y).0),
+                b(&bx.wrapping_mul(&by)),
+                b(&WrappingMul::wrapping_mul(&bx, &by)),
+                b(&(Wrapping(bx.clone()) * Wrapping(by.clone())).0),
+                { let mut w = Wrapping(bx.clone()); w *= Wrapping(by.clone()); b(&w.0) },
+                { let mut w = Wrapping(bx.clone()); w *= &Wrapping(by.clone()); b(&w.0) },
+            ]
+        }
+        ("c15.cmul", 2) => {
+            let (x, y, bx, by) = (arg!(ux(0)), arg!(ux(1)), arg!(bxv(0)), arg!(bxv(1)));
+            let (cx, cy) = (Checked::new(x), Checked::new(y));
+            routes![
+                optu(CheckedMul::checked_mul(&x, &y)),
+                optu((cx * cy).0),
+                optu((cx * &cy).0),
+                optu((&cx * cy).0),
+                optu((&cx * &cy).0),
+                { let mut w = cx; w *= cy; optu(w.0) },
+                { let mut w = cx; w *= &cy; optu(w.0) },
+                u(&(x * y)),
+                u(&(x * &y)),
+                u(&(&x * y)),
+                u(&(&x * &y)),
+                { let mut t = x; t *= y; u(&t) },
+                { let mut t = x; t *= &y; u(&t) },
+                optb(CheckedMul::checked_mul(&bx, &by)),
+            ]
+        }
+        // the full product: (lo, hi) halves of the fixed forms next to the 2n-limb boxed product;
+        // the boxed operator forms by value / `*=` / WideningMul are routes to `BoxedUint::mul`
+        ("c15.mulwide", 2) => {
+            let (x, y, bx, by) = (arg!(ux(0)), arg!(ux(1)), arg!(bxv(0)), arg!(bxv(1)));
+            let lohi = |p: (Uint<N>, Uint<N>)| format!("{} {}", uhex(&p.0), uhex(&p.1));
+            routes![
+                lohi(x.split_mul(&y)),
+                lohi(y.split_mul(&x)),
+                b(&bx.mul(&by)),
+                b(&by.mul(&bx)),
+                b(&(bx.clone() * by.clone())),
+                b(&(bx.clone() * &by)),
+                b(&(&bx * by.clone())),
+                b(&WideningMul::widening_mul(&bx, by.clone())),
+                b(&WideningMul::widening_mul(&bx, &by)),
+                { let mut w = bx.clone(); w *= by.clone(); b(&w) },
+                { let mut w = bx.clone(); w *= &by; b(&w) },
+                b(&(&bx * &by)),
+            ]
+        }
+        ("c15.square", 1) => {
+            let (x, bx) = (arg!(ux(0)), arg!(bxv(0)));
+            let lohi = |p: (Uint<N>, Uint<N>)| format!("{} {}", uhex(&p.0), uhex(&p.1));
+            routes![
+                lohi(x.square_wide()),
+                lohi(x.split_mul(&x)),
+                b(&bx.square()),
+                b(&bx.mul(&bx)),
+            ]
+        }
+        ("c15.wsquare", 1) => {
+            let (x, bx) = (arg!(ux(0)), arg!(bxv(0)));
+            routes![
+                u(&x.wrapping_square()),
+                u(&x.wrapping_mul(&x)),
+                u(&x.square_wide().0),
+                co(x.checked_square()),
+                optu(CheckedMul::checked_mul(&x, &x)),
+                u(&x.saturating_square()),
+                u(&x.saturating_mul(&x)),
+                b(&bx.wrapping_mul(&bx)),
+                optb(CheckedMul::checked_mul(&bx, &bx)),
+            ]
+        }
+        // ---------------------------------------------------------------- C07: modular arithmetic (a, b < p)
+        ("c15.add_mod", 3) => {
+            let (x, y, p, bx, by, bp) = (arg!(ux(0)), arg!(ux(1)), arg!(ux(2)), arg!(bxv(0)), arg!(bxv(1)), arg!(bxv(2)));
+            routes![
+                u(&x.add_mod(&y, &p)),
+                u(&AddMod::add_mod(&x, &y, &p)),
+                b(&bx.add_mod(&by, &bp)),
+                b(&AddMod::add_mod(&bx, &by, &bp)),
+                { let mut t = bx.clone(); t.add_mod_assign(&by, &bp); b(&t) },
+            ]
+        }
+        ("c15.sub_mod", 3) => {
+            let (x, y, p, bx, by, bp) = (arg!(ux(0)), arg!(ux(1)), arg!(ux(2)), arg!(bxv(0)), arg!(bxv(1)), arg!(bxv(2)));
+            routes![
+                u(&x.sub_mod(&y, &p)),
+                u(&SubMod::sub_mod(&x, &y, &p)),
+                b(&bx.sub_mod(&by, &bp)),
+                b(&SubMod::sub_mod(&bx, &by, &bp)),
+            ]
+        }
+        ("c15.neg_mod", 2) => {
+            let (x, p, bx, bp) = (arg!(ux(0)), arg!(ux(1)), arg!(bxv(0)), arg!(bxv(1)));
+            routes![
+                u(&x.neg_mod(&p)),
+                u(&NegMod::neg_mod(&x, &p)),
+                u(&Uint::<N>::ZERO.sub_mod(&x, &p)),
+                b(&bx.neg_mod(&bp)),
+                b(&NegMod::neg_mod(&bx, &bp)),
+            ]
+        }
+        ("c15.double_mod", 2) => {
+            let (x, p, bx, bp) = (arg!(ux(0)), arg!(ux(1)), arg!(bxv(0)), arg!(bxv(1)));
+            routes![
+                u(&x.double_mod(&p)),
+                u(&x.add_mod(&x, &p)),
+                b(&bx.double_mod(&bp)),
+                b(&bx.add_mod(&bx, &bp)),
+            ]
+        }
+        ("c15.mul_mod_special", 3) => {
+            let (x, y, c, bx, by) = (arg!(ux(0)), arg!(ux(1)), arg!(limb(a[2])), arg!(bxv(0)), arg!(bxv(1)));
+            routes![u(&x.mul_mod_special(&y, c)), b(&bx.mul_mod_special(&by, c))]
+        }
+        ("c15.sub_mod_special", 3) => {
+            let (x, y, c, bx, by) = (arg!(ux(0)), arg!(ux(1)), arg!(limb(a[2])), arg!(bxv(0)), arg!(bxv(1)));
+            routes![u(&x.sub_mod_special(&y, c)), b(&bx.sub_mod_special(&by, c))]
+        }
+        ("c15.neg_mod_special", 2) => {
+            let (x, c, bx) = (arg!(ux(0)), arg!(limb(a[1])), arg!(bxv(0)));
+            routes![u(&x.neg_mod_special(c)), b(&bx.neg_mod_special(c))]
+        }
+        // ---------------------------------------------------------------- C20: square root
+        ("c15.sqrt", 1) => {
+            let (x, bx) = (arg!(ux(0)), arg!(bxv(0)));
+            routes![
+                u(&x.sqrt()),
+                u(&x.sqrt_vartime()),
+                u(&x.wrapping_sqrt()),
+                u(&x.wrapping_sqrt_vartime()),
+                u(&<Uint<N> as SquareRoot>::sqrt(&x)),
+                u(&<Uint<N> as SquareRoot>::sqrt_vartime(&x)),
+                b(&bx.sqrt()),
+                b(&bx.sqrt_vartime()),
+                b(&bx.wrapping_sqrt()),
+                b(&bx.wrapping_sqrt_vartime()),
+                b(&<BoxedUint as SquareRoot>::sqrt(&bx)),
+                b(&<BoxedUint as SquareRoot>::sqrt_vartime(&bx)),
+            ]
+        }
+        ("c15.csqrt", 1) => {
+            let (x, bx) = (arg!(ux(0)), arg!(bxv(0)));
+            routes![
+                optu(x.checked_sqrt()),
+                optu(x.checked_sqrt_vartime()),
+                optb(bx.checked_sqrt()),
+                optb(bx.checked_sqrt_vartime()),
+            ]
+        }
+        // ---------------------------------------------------------------- C02: division (d != 0)
+        ("c15.div", 2) => {
+            let (x, d, bx, bd) = (arg!(ux(0)), arg!(ux(1)), arg!(bxv(0)), arg!(bxv(1)));
+            let (nz, bnz) = (arg!(nzu(d)), arg!(nzb(&bd)));
+            let qr = |p: (Uint<N>, Uint<N>)| format!("{} {}", uhex(&p.0), uhex(&p.1));
+            let bqr = |p: (BoxedUint, BoxedUint)| format!("{} {}", bhexlen(&p.0), bhexlen(&p.1));
+            routes![
+                qr(x.div_rem(&nz)),
+                qr(x.div_rem_vartime(&nz)),
+                qr((x.wrapping_div(&nz), x.rem(&nz))),
+                qr((x.wrapping_div_vartime(&nz), x.rem_vartime(&nz))),
+                qr((DivVartime::div_vartime(&x, &nz), x.wrapping_rem_vartime(&d))),
+                qr((x / nz, x % nz)),
+                qr((&x / &nz, &x % &nz)),
+                qr((x / &nz, x % &nz)),
+                qr((&x / nz, &x % nz)),
+                qr((x / d, x % d)),
+                qr((&x / d, &x % d)),
+                { let (mut t, mut r) = (x, x); t /= nz; r %= nz; qr((t, r)) },
+                { let (mut t, mut r) = (x, x); t /= &nz; r %= &nz; qr((t, r)) },
+                qr(((Wrapping(x) / nz).0, (Wrapping(x) % nz).0)),
+                qr(((&Wrapping(x) / &nz).0, (&Wrapping(x) % &nz).0)),
+                { let (mut t, mut r) = (Wrapping(x), Wrapping(x)); t /= nz; r %= nz; qr((t.0, r.0)) },
+                format!("{} {}", optu(x.checked_div(&d)), optu(x.checked_rem(&d))),
+                format!("{} {}", optu(CheckedDiv::checked_div(&x, &d)), optu((Checked::new(x) / Checked::new(d)).0)),
+                u(&Uint::<N>::rem_wide_vartime((x, Uint::ZERO), &nz)),
+                bqr(bx.div_rem(&bnz)),
+                bqr(bx.div_rem_vartime(&bnz)),
+                bqr((bx.wrapping_div(&bnz), bx.rem(&bnz))),
+                bqr((bx.wrapping_div_vartime(&bnz), bx.rem_vartime(&bnz))),
+                bqr((DivVartime::div_vartime(&bx, &bnz), bx.rem_vartime(&bnz))),
+                bqr((bx.clone() / bnz.clone(), bx.clone() % bnz.clone())),
+                bqr((&bx / &bnz, &bx % &bnz)),
+                bqr((bx.clone() / &bnz, bx.clone() % &bnz)),
+                bqr((&bx / bnz.clone(), &bx % bnz.clone())),
+                { let (mut t, mut r) = (bx.clone(), bx.clone()); t /= &bnz; r %= &bnz; bqr((t, r)) },
+                { let (mut t, mut r) = (bx.clone(), bx.clone()); t /= bnz.clone(); r %= bnz.clone(); bqr((t, r)) },
+                b(&(Wrapping(bx.clone()) / &bnz).0),
+                optb(bx.checked_div(&bd)),
+                optb(CheckedDiv::checked_div(&bx, &bd)),
+            ]
+        }
+        ("c15.divlimb", 2) => {
+            let (x, l, bx) = (arg!(ux(0)), arg!(limb(a[1])), arg!(bxv(0)));
+            let nz = arg!(nzl(l));
+            let rc = Reciprocal::new(nz);
+            let qr = |p: (Uint<N>, Limb)| format!("{} {}", uhex(&p.0), lhex(p.1));
+            let qu = |q: Uint<N>, r: Uint<N>| format!("{} {}", uhex(&q), uhex(&r));
+            let bqr = |p: (BoxedUint, Limb)| format!("{} {}", bhexlen(&p.0), lhex(p.1));
+            routes![
+                qr(x.div_rem_limb(nz)),
+                qr(x.div_rem_limb_with_reciprocal(&rc)),
+                qr(DivRemLimb::div_rem_limb(&x, nz)),
+                qr(DivRemLimb::div_rem_limb_with_reciprocal(&x, &rc)),
+                qr((x / nz, x % nz)),
+                qr((&x / &nz, &x % &nz)),
+                qr((x / &nz, x % &nz)),
+                qr((&x / nz, &x % nz)),
+                qr(((Wrapping(x) / nz).0, (Wrapping(x) % nz).0)),
+                qr(((&Wrapping(x) / &nz).0, (&Wrapping(x) % &nz).0)),
+                qr((x.div_rem_limb(nz).0, x.rem_limb(nz))),
+                qr((x.div_rem_limb(nz).0, x.rem_limb_with_reciprocal(&rc))),
+                qr((x.div_rem_limb(nz).0, RemLimb::rem_limb(&x, nz))),
+                qr((x.div_rem_limb(nz).0, RemLimb::rem_limb_with_reciprocal(&x, &rc))),
+                { let (mut t, mut r) = (x, x); t /= nz; r %= nz; qu(t, r) },
+                { let (mut t, mut r) = (x, x); t /= &nz; r %= &nz; qu(t, r) },
+                { let (mut t, mut r) = (Wrapping(x), Wrapping(x)); t /= nz; r %= nz; qu(t.0, r.0) },
+                bqr(bx.div_rem_limb(nz)),
+                bqr(bx.div_rem_limb_with_reciprocal(&rc)),
+                bqr(DivRemLimb::div_rem_limb(&bx, nz)),
+                bqr(DivRemLimb::div_rem_limb_with_reciprocal(&bx, &rc)),
+                bqr((bx.div_rem_limb(nz).0, bx.rem_limb(nz))),
+                bqr((bx.div_rem_limb(nz).0, bx.rem_limb_with_reciprocal(&rc))),
+                bqr((bx.div_rem_limb(nz).0, RemLimb::rem_limb(&bx, nz))),
+                bqr((bx.div_rem_limb(nz).0, RemLimb::rem_limb_with_reciprocal(&bx, &rc))),
+            ]
+        }
+        _ => return None,
+    })
+}
+
+/// `mul_mod::<2N>` needs the wide limb count as a const argument
+macro_rules! mul_mod_at {
+    ($n:literal, $w:literal, $a:expr) => {{
+        let a = $a;
+        if a.len() != 3 { return Some(BAD.to_string()); }
+        let (x, y, p) = (arg!(uint::<$n>(a[0])), arg!(uint::<$n>(a[1])), arg!(uint::<$n>(a[2])));
+        let (bx, by, bp) = (arg!(boxed(a[0], $n)), arg!(boxed(a[1], $n)), arg!(boxed(a[2], $n)));
+        let nz = arg!(nzu(p));
+        let bnz = arg!(nzb(&bp));
+        Some(routes![
+            uhex(&x.mul_mod::<$w>(&y, &nz)),
+            uhex(&x.mul_mod_vartime(&y, &nz)),
+            uhex(&MulMod::mul_mod(&x, &y, &p)),
+            uhex(&x.widening_mul(&y).rem_vartime(&nz.resize::<$w>().to_nz().unwrap()).resize::<$n>()),
+            bhexlen(&bx.mul_mod(&by, &bp)),
+            bhexlen(&MulMod::mul_mod(&bx, &by, &bp)),
+            bhexlen(&bx.mul(&by).rem_vartime(&bnz)),
+        ])
+    }};
+}
+
+fn mul_mod(n: usize, a: &[&str]) -> Option<String> {
+    match n {
+        1 => mul_mod_at!(1, 2, a),
+        2 => mul_mod_at!(2, 4, a),
+        3 => mul_mod_at!(3, 6, a),
+        4 => mul_mod_at!(4, 8, a),
+        8 => mul_mod_at!(8, 16, a),
+        16 => mul_mod_at!(16, 32, a),
+        _ => Some("unsupported-width".to_string()),
+    }
+}
+
+// ------------------------------------------------------------------------------------------------
+// Limb
+// ------------------------------------------------------------------------------------------------
+
+fn limb_op(op: &str, a: &[&str]) -> Option<String> {
+    Some(match (op, a) {
+        ("c15.l.add", [x, y]) => {
+            let (x, y) = (arg!(limb(x)), arg!(limb(y)));
+            routes![
+                lhex(x.wrapping_add(y)),
+                lhex(WrappingAdd::wrapping_add(&x, &y)),
+                lhex((Wrapping(x) + Wrapping(y)).0),
+                lhex(x.adc(y, Limb::ZERO).0),
+                lhex(x.overflowing_add(y).0),
+                { let mut w = Wrapping(x); w += Wrapping(y); lhex(w.0) },
+                uhex(&U64::from(x).wrapping_add(&U64::from(y))),
+            ]
+        }
+        ("c15.l.sub", [x, y]) => {
+            let (x, y) = (arg!(limb(x)), arg!(limb(y)));
+            routes![
+                lhex(x.wrapping_sub(y)),
+                lhex(WrappingSub::wrapping_sub(&x, &y)),
+                lhex((Wrapping(x) - Wrapping(y)).0),
+                lhex(x.sbb(y, Limb::ZERO).0),
+                { let mut w = Wrapping(x); w -= Wrapping(y); lhex(w.0) },
+                uhex(&U64::from(x).wrapping_sub(&U64::from(y))),
+            ]
+        }
+        ("c15.l.cadd", [x, y]) => {
+            let (x, y) = (arg!(limb(x)), arg!(limb(y)));
+            routes![
+                optl(x.checked_add(&y)),
+                optl((Checked::new(x) + Checked::new(y)).0),
+                lhex(x + y),
+                optu(CheckedAdd::checked_add(&U64::from(x), &U64::from(y))),
+            ]
+        }
+        ("c15.l.csub", [x, y]) => {
+            let (x, y) = (arg!(limb(x)), arg!(limb(y)));
+            routes![
+                optl(x.checked_sub(&y)),
+                optl((Checked::new(x) - Checked::new(y)).0),
+                lhex(x - y),
+                lhex(x - &y),
+                optu(CheckedSub::checked_sub(&U64::from(x), &U64::from(y))),
+            ]
+        }
+        ("c15.l.mul", [x, y]) => {
+            let (x, y) = (arg!(limb(x)), arg!(limb(y)));
+            routes![
+                lhex(x.wrapping_mul(y)),
+                lhex(WrappingMul::wrapping_mul(&x, &y)),
+                lhex((Wrapping(x) * Wrapping(y)).0),
+                { let mut w = Wrapping(x); w *= Wrapping(y); lhex(w.0) },
+                lhex(Limb::ZERO.mac(x, y, Limb::ZERO).0), // mac(self, b, c, carry) = self + b*c + carry
+                uhex(&U64::from(x).wrapping_mul(&U64::from(y))),
+            ]
+        }
+        ("c15.l.cmul", [x, y]) => {
+            let (x, y) = (arg!(limb(x)), arg!(limb(y)));
+            routes![
+                optl(x.checked_mul(&y)),
+                optl((Checked::new(x) * Checked::new(y)).0),
+                lhex(x * y),
+                lhex(&x * &y),
+                optu(CheckedMul::checked_mul(&U64::from(x), &U64::from(y))),
+            ]
+        }
+        ("c15.l.cmp", [x, y]) => {
+            let (x, y) = (arg!(limb(x)), arg!(limb(y)));
+            routes![
+                ord(x.cmp(&y)),
+                ord(x.partial_cmp(&y).unwrap()),
+                ord(x.cmp_vartime(&y)),
+                ord(U64::from(x).cmp(&U64::from(y))),
+            ]
+        }
+        ("c15.l.bits", [x]) => {
+            let x = arg!(limb(x));
+            routes![
+                x.bits().to_string(),
+                (Limb::BITS - x.leading_zeros()).to_string(),
+                U64::from(x).bits().to_string(),
+                U64::from(x).bits_vartime().to_string(),
+            ]
+        }
+        _ => return None,
+    })
+}
+
+// ------------------------------------------------------------------------------------------------
+// const context vs run time: a table of fixed inputs; every entry is evaluated by the compiler
+// (`const` item) and again at run time through the same call; the op line names the entry and repeats
+// its inputs so that the model can compute the expectation
+// ------------------------------------------------------------------------------------------------
+
+const CA: [U256; 6] = [
+    U256::ZERO,
+    U256::ONE,
+    U256::MAX,
+    U256::from_be_hex("8000000000000000000000000000000000000000000000000000000000000000"),
+    U256::from_be_hex("ffffffff00000001000000000000000000000000ffffffffffffffffffffffff"),
+    U256::from_be_hex("0123456789abcdeffedcba9876543210f0e1d2c3b4a5968778695a4b3c2d1e0f"),
+];
+const CB_: [U256; 6] = [
+    U256::ONE,
+    U256::MAX,
+    U256::MAX,
+    U256::from_be_hex("8000000000000000000000000000000000000000000000000000000000000001"),
+    U256::from_be_hex("00000000ffffffffffffffffffffffffffffffffffffffff0000000000000003"),
+    U256::from_be_hex("00000000000000000000000000000000ffffffffffffffffffffffffffffff61"),
+];
+const CS: [u32; 6] = [0, 1, 63, 64, 129, 255];
+
+const fn nz256(x: U256) -> NonZero<U256> {
+    // const context: NonZero::new is not const for Uint; `to_nz` is
+    x.to_nz().expect("non-zero table entry")
+}
+
+const K_ADD: [U256; 6] = { let mut o = [U256::ZERO; 6]; let mut i = 0; while i < 6 { o[i] = CA[i].wrapping_add(&CB_[i]); i += 1; } o };
+const K_SUB: [U256; 6] = { let mut o = [U256::ZERO; 6]; let mut i = 0; while i < 6 { o[i] = CA[i].wrapping_sub(&CB_[i]); i += 1; } o };
+const K_MUL: [U256; 6] = { let mut o = [U256::ZERO; 6]; let mut i = 0; while i < 6 { o[i] = CA[i].wrapping_mul(&CB_[i]); i += 1; } o };
+const K_MULHI: [U256; 6] = { let mut o = [U256::ZERO; 6]; let mut i = 0; while i < 6 { o[i] = CA[i].split_mul(&CB_[i]).1; i += 1; } o };
+const K_NEG: [U256; 6] = { let mut o = [U256::ZERO; 6]; let mut i = 0; while i < 6 { o[i] = CA[i].wrapping_neg(); i += 1; } o };
+const K_SHL: [U256; 6] = { let mut o = [U256::ZERO; 6]; let mut i = 0; while i < 6 { o[i] = CA[i].shl(CS[i]); i += 1; } o };
+const K_SHLV: [U256; 6] = { let mut o = [U256::ZERO; 6]; let mut i = 0; while i < 6 { o[i] = CA[i].shl_vartime(CS[i]); i += 1; } o };
+const K_SHR: [U256; 6] = { let mut o = [U256::ZERO; 6]; let mut i = 0; while i < 6 { o[i] = CA[i].shr(CS[i]); i += 1; } o };
+const K_SHRV: [U256; 6] = { let mut o = [U256::ZERO; 6]; let mut i = 0; while i < 6 { o[i] = CA[i].shr_vartime(CS[i]); i += 1; } o };
+const K_BITS: [u32; 6] = { let mut o = [0u32; 6]; let mut i = 0; while i < 6 { o[i] = CA[i].bits(); i += 1; } o };
+const K_BITSV: [u32; 6] = { let mut o = [0u32; 6]; let mut i = 0; while i < 6 { o[i] = CA[i].bits_vartime(); i += 1; } o };
+const K_TZ: [u32; 6] = { let mut o = [0u32; 6]; let mut i = 0; while i < 6 { o[i] = CA[i].trailing_zeros(); i += 1; } o };
+const K_SQRT: [U256; 6] = { let mut o = [U256::ZERO; 6]; let mut i = 0; while i < 6 { o[i] = CA[i].sqrt(); i += 1; } o };
+const K_SQRTV: [U256; 6] = { let mut o = [U256::ZERO; 6]; let mut i = 0; while i < 6 { o[i] = CA[i].sqrt_vartime(); i += 1; } o };
+const K_DIV: [(U256, U256); 6] = { let mut o = [(U256::ZERO, U256::ZERO); 6]; let mut i = 0; while i < 6 { o[i] = CA[i].div_rem(&nz256(CB_[i])); i += 1; } o };
+const K_DIVV: [(U256, U256); 6] = { let mut o = [(U256::ZERO, U256::ZERO); 6]; let mut i = 0; while i < 6 { o[i] = CA[i].div_rem_vartime(&nz256(CB_[i])); i += 1; } o };
+const K_CMP: [i8; 6] = { let mut o = [0i8; 6]; let mut i = 0; while i < 6 { o[i] = match CA[i].cmp_vartime(&CB_[i]) { Ordering::Less => -1, Ordering::Equal => 0, Ordering::Greater => 1 }; i += 1; } o };
+const K_HEX: U256 = U256::from_be_hex("0123456789abcdeffedcba9876543210f0e1d2c3b4a5968778695a4b3c2d1e0f");
+const K_U128: U128 = U128::from_u128(0x0123456789abcdef_fedcba9876543210);
+const K_WORDS: U256 = U256::from_words([1, 2, 3, 0x8000000000000000]);
+
+fn const_op(op: &str, a: &[&str]) -> Option<String> {
+    let k = arg!(a.first().and_then(|s| dec(s)));
+    if k >= 6 {
+        return Some(BAD.into());
+    }
+    // the inputs repeated on the line must be the table's inputs
+    let same = |i: usize, v: &U256| a.get(i).and_then(|s| uint::<4>(s)).map(|x| x == *v).unwrap_or(false);
+    let (x, y, s) = (CA[k], CB_[k], CS[k]);
+    let two = same(1, &x) && same(2, &y) && a.len() == 3;
+    let one = same(1, &x) && a.len() == 2;
+    let shift = same(1, &x) && a.len() == 3 && a[2].parse::<u32>().ok() == Some(s);
+    let ordi = |o: Ordering| match o { Ordering::Less => -1i8, Ordering::Equal => 0, Ordering::Greater => 1 };
+    let qr = |p: (U256, U256)| format!("{} {}", uhex(&p.0), uhex(&p.1));
+    Some(match op {
+        "c15.const.add" if two => routes![uhex(&K_ADD[k]), uhex(&x.wrapping_add(&y))],
+        "c15.const.sub" if two => routes![uhex(&K_SUB[k]), uhex(&x.wrapping_sub(&y))],
+        "c15.const.mul" if two => routes![
+            format!("{} {}", uhex(&K_MUL[k]), uhex(&K_MULHI[k])),
+            format!("{} {}", uhex(&x.wrapping_mul(&y)), uhex(&x.split_mul(&y).1))
+        ],
+        "c15.const.neg" if one => routes![uhex(&K_NEG[k]), uhex(&x.wrapping_neg())],
+        "c15.const.shl" if shift => routes![uhex(&K_SHL[k]), uhex(&K_SHLV[k]), uhex(&x.shl(s)), uhex(&x.shl_vartime(s))],
+        "c15.const.shr" if shift => routes![uhex(&K_SHR[k]), uhex(&K_SHRV[k]), uhex(&x.shr(s)), uhex(&x.shr_vartime(s))],
+        "c15.const.bits" if one => routes![
+            K_BITS[k].to_string(), K_BITSV[k].to_string(), x.bits().to_string(), x.bits_vartime().to_string()
+        ],
+        "c15.const.tz" if one => routes![K_TZ[k].to_string(), x.trailing_zeros().to_string()],
+        "c15.const.sqrt" if one => routes![uhex(&K_SQRT[k]), uhex(&K_SQRTV[k]), uhex(&x.sqrt()), uhex(&x.sqrt_vartime())],
+        "c15.const.div" if two => routes![
+            qr(K_DIV[k]), qr(K_DIVV[k]), qr(x.div_rem(&nz256(y))), qr(x.div_rem_vartime(&nz256(y)))
+        ],
+        "c15.const.cmp" if two => routes![K_CMP[k].to_string(), ordi(x.cmp_vartime(&y)).to_string(), ordi(x.cmp(&y)).to_string()],
+        _ => return Some(BAD.into()),
+    })
+}
+
+fn const_conv(op: &str, a: &[&str]) -> Option<String> {
+    Some(match (op, a) {
+        // `from_be_hex` in a const item vs at run time vs the byte decoder
+        ("c15.const.hex", [h]) => {
+            let bytes_ = arg!(bytes(h));
+            let s = arg!(std::str::from_utf8(&bytes_).ok());
+            if s != "0123456789abcdeffedcba9876543210f0e1d2c3b4a5968778695a4b3c2d1e0f" {
+                return Some(BAD.into());
+            }
+            let raw: Vec<u8> = (0..32).map(|i| u8::from_str_radix(&s[2 * i..2 * i + 2], 16).unwrap()).collect();
+            routes![uhex(&K_HEX), uhex(&U256::from_be_hex(s)), uhex(&U256::from_be_slice(&raw)), uhex(&CA[5])]
+        }
+        ("c15.const.u128", [v]) => {
+            let x = arg!(uint::<2>(v));
+            if x != K_U128 {
+                return Some(BAD.into());
+            }
+            let w = x.as_words();
+            let p = (w[0] as u128) | ((w[1] as u128) << 64);
+            routes![uhex(&K_U128), uhex(&U128::from_u128(p)), uhex(&U128::from(p)), uhex(&U128::from_words([w[0], w[1]]))]
+        }
+        ("c15.const.words", [v]) => {
+            let x = arg!(uint::<4>(v));
+            if x != K_WORDS {
+                return Some(BAD.into());
+            }
+            let w = *x.as_words();
+            routes![uhex(&K_WORDS), uhex(&U256::from_words(w)), uhex(&U256::new(w.map(Limb)))]
+        }
+        _ => return None,
+    })
+}
+
+macro_rules! with_w {
+    ($n:expr, $f:ident, $($args:expr),*) => {
+        match $n {
+            1 => $f::<1>($($args),*),
+            2 => $f::<2>($($args),*),
+            3 => $f::<3>($($args),*),
+            4 => $f::<4>($($args),*),
+            6 => $f::<6>($($args),*),
+            8 => $f::<8>($($args),*),
+            16 => $f::<16>($($args),*),
+            32 => $f::<32>($($args),*),
+            _ => Some("unsupported-width".to_string()),
+        }
+    };
+}
+
+pub fn dispatch(op: &str, a: &[&str]) -> Option<String> {
+    if op.starts_with("c15.l.") {
+        return limb_op(op, a);
+    }
+    if op.starts_with("c15.const.") {
+        return match const_conv(op, a) {
+            Some(s) => Some(s),
+            None => const_op(op, a),
+        };
+    }
+    if a.is_empty() {
+        return Some(BAD.into());
+    }
+    let n = arg!(dec(a[0]));
+    let rest = &a[1..];
+    if op == "c15.mul_mod" {
+        return mul_mod(n, rest);
+    }
+    with_w!(n, fx, op, rest)
 }
